@@ -641,6 +641,9 @@ func (n *LocalNode) Sess(lSeid uint64) (*Sess, error) {
 
 func (n *LocalNode) RemoteSess(rSeid uint64, addr net.Addr) (*Sess, error) {
 	for _, s := range n.sess {
+		if s == nil {
+			continue
+		}
 		if s.RemoteID == rSeid && s.rnode.addr.String() == addr.String() {
 			return s, nil
 		}
